@@ -59,21 +59,24 @@ def forward (s : St) (chunk : Option Str) : St := { s with out := s.out ++ [chun
 /-- concatenation of the delivered chunks -/
 def delivered (s : St) : Str := (s.out.map (fun o => o.getD [])).flatten
 
-/-- `_process(chunk)`, `enable_buffer = False` -/
+/-- `_process(chunk)` for a string chunk, `enable_buffer = False` -/
+def processStr (cfg : Cfg) (s : St) (c : Str) : St :=
+  let comp := s.completion ++ c
+  match cutStop cfg.stop comp with
+  | some u =>
+    let cut := stripSuffix cfg.suffix u
+    let s1 : St := { s with completion := cut }
+    let s2 := if cut.length > s.completion.length then forward s1 (some (cut.drop s.completion.length)) else s1
+    { s2 with cur := [], finished := true }
+  | none =>
+    let s1 := forward { s with completion := comp } (some c)
+    if c = [] then { s1 with finished := true } else s1
+
+/-- `_process(chunk)` -/
 def process (cfg : Cfg) (s : St) (chunk : Option Str) : St :=
   match chunk with
   | none => { forward s none with finished := true }
-  | some c =>
-    let comp := s.completion ++ c
-    match cutStop cfg.stop comp with
-    | some u =>
-      let cut := stripSuffix cfg.suffix u
-      let s1 : St := { s with completion := cut }
-      let s2 := if cut.length > s.completion.length then forward s1 (some (cut.drop s.completion.length)) else s1
-      { s2 with cur := [], finished := true }
-    | none =>
-      let s1 := forward { s with completion := comp } (some c)
-      if c = [] then { s1 with finished := true } else s1
+  | some c => processStr cfg s c
 
 /-- `_remove_suffix_at_end` (returns the new `current_chunk`) -/
 def removeSuffixAtEnd (cfg : Cfg) (completion cur : Str) : Str :=
@@ -86,14 +89,16 @@ def isEnd (chunk : Option Str) : Bool :=
   | none => true
   | some c => c.isEmpty
 
+/-- `await self._process(self.current_chunk); self.current_chunk = ""` (`_process` never reads
+    `current_chunk`, so the value it holds during the call is immaterial) -/
+def release (cfg : Cfg) (s : St) (cur : Str) : St := { processStr cfg s cur with cur := [] }
+
 /-- the part of `push_chunk` after the prefix has been dealt with -/
 def pushBody (cfg : Cfg) (s : St) (chunk : Option Str) : St :=
   if cfg.suffix ≠ [] ∨ cfg.stop ≠ [] then
     let cur := s.cur ++ chunk.getD []
     if holds (pats cfg) cur ∧ ¬ isEnd chunk then { s with cur := cur }
-    else
-      let cur1 := if isEnd chunk then removeSuffixAtEnd cfg s.completion cur else cur
-      { process cfg { s with cur := cur1 } (some cur1) with cur := [] }
+    else release cfg s (if isEnd chunk then removeSuffixAtEnd cfg s.completion cur else cur)
   else process cfg s chunk
 
 /-- `push_chunk(chunk)` -/
@@ -110,12 +115,8 @@ def push (cfg : Cfg) (s : St) (chunk : Option Str) : St :=
 
 /-- `on_llm_end` -/
 def endLlm (cfg : Cfg) (s : St) : St :=
-  let s1 :=
-    if s.cur ≠ [] then
-      let cur1 := removeSuffixAtEnd cfg s.completion s.cur
-      { process cfg { s with cur := cur1 } (some cur1) with cur := [] }
-    else s
-  { process cfg s1 (some []) with pfx := [] }
+  let s1 := if s.cur ≠ [] then release cfg s (removeSuffixAtEnd cfg s.completion s.cur) else s
+  { processStr cfg s1 [] with pfx := [] }
 
 /-- how the caller signals the end of the generation -/
 inductive EndProto where
